@@ -66,6 +66,9 @@ static const Scenario kScenarios[] = {
             "c1", "app app2", { { NULL } } },
   /* 28 */ { "depfile_noncanonical_path", { RULES "build gh: cc ghsrc\nbuild o: ccd c || gh\n", NULL, NULL },
             "ghsrc c", "o", { { "o", "gh", NONCANONICAL_DEPFILE, NULL }, { NULL } } },
+  /* 29 */ { "regen_manifest", { RULES "rule regen\n  command = configure\n  generator = 1\nbuild build.ninja: regen configure.in\nbuild b: cc a\nbuild c: cc b\n",
+                                 RULES "rule regen\n  command = configure\n  generator = 1\nbuild build.ninja: regen configure.in\nbuild b: cc a a2\nbuild c: cc b\n  command = cc -O2 $in -o $out\n", NULL },
+            "a a2 configure.in", "c b", { { "build.ninja", "", REGEN_MANIFEST, NULL }, { NULL } } },
 };
 #ifndef SCENARIO
 #define SCENARIO 0
